@@ -12,17 +12,23 @@ import (
 
 type lifecycle struct{ H *Handler }
 
-func (l lifecycle) OnConnOpen(ctx *gortsplib.ServerHandlerOnConnOpenCtx)       { l.H.OnConnOpen(ctx) }
-func (l lifecycle) OnConnClose(ctx *gortsplib.ServerHandlerOnConnCloseCtx)     { l.H.OnConnClose(ctx) }
-func (l lifecycle) OnSessionOpen(ctx *gortsplib.ServerHandlerOnSessionOpenCtx) { l.H.OnSessionOpen(ctx) }
+func (l lifecycle) OnConnOpen(ctx *gortsplib.ServerHandlerOnConnOpenCtx)   { l.H.OnConnOpen(ctx) }
+func (l lifecycle) OnConnClose(ctx *gortsplib.ServerHandlerOnConnCloseCtx) { l.H.OnConnClose(ctx) }
+func (l lifecycle) OnSessionOpen(ctx *gortsplib.ServerHandlerOnSessionOpenCtx) {
+	l.H.OnSessionOpen(ctx)
+}
 func (l lifecycle) OnSessionClose(ctx *gortsplib.ServerHandlerOnSessionCloseCtx) {
 	l.H.OnSessionClose(ctx)
 }
 func (l lifecycle) OnStreamWriteError(ctx *gortsplib.ServerHandlerOnStreamWriteErrorCtx) {
 	l.H.OnStreamWriteError(ctx)
 }
-func (l lifecycle) OnDecodeError(ctx *gortsplib.ServerHandlerOnDecodeErrorCtx) { l.H.OnDecodeError(ctx) }
-func (l lifecycle) OnPacketsLost(ctx *gortsplib.ServerHandlerOnPacketsLostCtx) { l.H.OnPacketsLost(ctx) }
+func (l lifecycle) OnDecodeError(ctx *gortsplib.ServerHandlerOnDecodeErrorCtx) {
+	l.H.OnDecodeError(ctx)
+}
+func (l lifecycle) OnPacketsLost(ctx *gortsplib.ServerHandlerOnPacketsLostCtx) {
+	l.H.OnPacketsLost(ctx)
+}
 
 // PlayOnlyHandler serves readers only: Describe, Setup, Play, Pause.
 type PlayOnlyHandler struct{ lifecycle }
